@@ -140,6 +140,10 @@ def gen_cases(tier, rnd, prop, budget):
             # positions 2 and 5 are SAM games here; the offset kind (huge stand-alone values, small increments: intervals that
             # are narrow relative to their magnitude, so a relative-tolerance "snap" of nearly closed intervals shows) comes first
             kind = ["offset", "dyadic", "int", "big", "offset", "int"][i % 6]
+        if kind == "int" and i % 6 == 4 and prop in ("C01", "C02", "C03"):
+            # worths of the order of 1e19 and more (small integers times 2^62: exact in float64) — beyond every integer sentinel
+            v_ = G.sa_game(n, rnd, kind="int", neg_singletons=(i % 3 == 1))
+            return [x * 2 ** 62 for x in v_], "sa-huge"
         return G.sa_game(n, rnd, kind=kind, neg_singletons=(i % 3 == 1),
                          v0=Fraction(-(i % 2) * rnd.randint(0, 3))), f"sa-{kind}"
     # n = 3: all K
@@ -187,6 +191,15 @@ def gen_cases(tier, rnd, prop, budget):
             if i % 4 == 3:
                 K.add(blocks[0] | blocks[1])
             yield n, v, sorted(K), "sa-blocks:blockK"
+    # nearly complete knowledge with the SAME few unknown ids for n = 6, 7, 8 in ascending order within one process (the end of an
+    # episode): whatever is remembered per "set of unknown coalitions" must not be carried from one player count to another
+    if prop in ("C03", "C01", "C02", "C08"):
+        for rep_ in range(2 if tier == "quick" else 8):
+            unknown_ids = sorted(rnd.sample([c for c in range(3, 64) if G.popcount(c) >= 2 and c != 63], rnd.randint(2, 4)))
+            for n in (6, 7, 8):
+                v = G.sa_game(n, rnd, kind="int", neg_singletons=False)
+                K = [c for c in range(2 ** n) if c not in unknown_ids]
+                yield n, v, K, "sa-int:nearlyfullK"
     for n, cnt in ((5, 300 if tier == "quick" else 5000), (6, 40 if tier == "quick" else 500),
                    (7, 0 if tier == "quick" else 50), (2, 4)):
         for i in range(cnt):
